@@ -275,7 +275,7 @@ def oracle(text, ops, detail=None):
             return "write() number %d raised %s: %s after an earlier write() of the same object succeeded" % (len(outs) + 1, type(e).__name__, str(e)[-80:])
         return None          # not a writable file (e.g. missing STOP): outside the property
     if detail is not None:
-        detail["outs"], detail["snaps"] = outs, snaps
+        detail["outs"], detail["snaps"], detail["before"] = outs, snaps, before
     after = snaps[0]
     # 1. frame
     if before["__data"] != after["__data"]:
@@ -441,13 +441,15 @@ def fix_ops(ops):
     return out
 
 
-EXPLAINED = ("two consecutive write() outputs differ", "second write() changed the object again")
+EXPLAINED = ("two consecutive write() outputs differ", "second write() changed the object again",
+             "write(wrap=...) changed ~Version beyond the WRAP item")
 
 
 def finding_of(payload):
     """duplicate-wrap: ~Version holds >= 2 WRAP items, wrap= is given, AND the first failing clause is determinism / idempotence, AND
-    the two outputs (snapshots) are equal once the WRAP lines (items) are left out - i.e. the ONLY thing wrong is the WRAP item
-    appended on every call.  Anything else on such a payload is a new violation."""
+    the two outputs (snapshots) are equal once the WRAP lines (items) are left out, and so are the snapshots before and after the first
+    write - i.e. the ONLY thing wrong is the WRAP item appended on every call (the frame clause sees it first: the appended item
+    is not "the WRAP item").  Anything else on such a payload is a new violation."""
     import re
     text = payload.get("text", "")
     m = re.search(r"~V[^\n]*\n(.*?)(?=\n\s*~|\Z)", text, re.S | re.I)
@@ -468,7 +470,7 @@ def finding_of(payload):
     def nowrap(sn):
         return {k: ([x for x in v if x[1].upper().split(":")[0] != "WRAP"] if k == "Version" else v) for k, v in sn.items()}
     o, sn = detail["outs"], detail["snaps"]
-    if strip(o[0]) == strip(o[1]) and nowrap(sn[0]) == nowrap(sn[1]):
+    if strip(o[0]) == strip(o[1]) and nowrap(sn[0]) == nowrap(sn[1]) and nowrap(detail["before"]) == nowrap(sn[0]):
         return "duplicate-wrap"
     return None
 
